@@ -26,11 +26,12 @@ TRUSTED_BASE = [
 TRUSTED_BASE_CL = [
     "Coq 8.16.1 kernel; vm_compute (finite-table obligations, concrete finding witnesses); no native_compute",
     "Print Assumptions of every pinned theorem must be 'Closed under the global context' (checked each run)",
-    "explicit premises of the theorems: good_key (1 < N, 1 < phi, Euler's theorem for N, b and c coprime to N), bases coprime to N, non-negative draws; primality of generated primes is GMP's (probable primes), re-tested not proved",
+    "explicit premises of the theorems: good_key (1 < N, 1 < phi, Euler's theorem for N, b and c coprime to N), bases coprime to / invertible modulo N, random_bits draws non-negative (bits_ok) -- checked on the implementation's runs by the harness where a theorem is claimed for them; primality of generated primes is GMP's (probable primes), re-tested not proved",
     "rug::Integer / GMP arithmetic modelled by Coq's Z (pow_mod, invert, gcd, sqrt, `%` = Z.rem, to_string, from_digits); GMP's next_prime / is_probably_prime replaced by logged results and a 12-base Miller-Rabin",
     "translator gen/consts.py (cl03/ciphersuites.rs, range_proof.rs constants, random_bits arguments of sigma_protocols.rs -> Generated/ClConsts.v)",
     "extraction: ExtrOcamlBasic, ExtrOcamlZBigInt (positive/N/Z -> zarith with its Extract Constant Pos.*/N.*/Z.* directives) plus Extract Constant N.land/N.lor/N.lxor",
-    "OCaml driver ocaml/driver.ml (incl. its JSON flattener), zarith; Python flattener vlib/clj.py; Rust harness harness/implrun/src/cl.rs (toy ciphersuite defined there) and hooks (feature verif_hooks) in /repo",
+    "OCaml driver ocaml/driver.ml (incl. its JSON flattener), zarith; Python flattener vlib/clj.py; Rust harness harness/implrun/src/cl.rs (ciphersuites toy, toy2 (ln != 2 SECPARAM) and micro defined there) and hooks (feature verif_hooks) in /repo",
+    "extraction and driver are cross-checked, not only trusted: arithmetic primitives (C13, C16) and whole protocol runs on the micro suite (C14, C15) are re-evaluated inside Coq by vm_compute on the Gallina definitions and must print what the extracted model printed",
     "hand-written Gallina model coq/Model/Cl.v: tied to the code only by the correspondence check (differential with logged randomness; generator quality bounds it)",
 ]
 
